@@ -268,7 +268,7 @@ def plan(tier):
             T.append((ix[n], 3, 4, None, "D", 2))
             T.append((ix[n], 2, 4, None, "D", 3))
         for n in ("single", "paired", "info-rest-wildcard", "paired-demux"):
-            T.append((ix[n], 2, 2, None, "S", 900))  # whole interleaving space, time budget in seconds
+            T.append((ix[n], 2, 2, None, "S", 2400))  # whole interleaving space, time budget in seconds
     return T
 
 
